@@ -1224,7 +1224,9 @@ def judge_c15(ops, impl):
                 bad.append((i, 'rejected but left path=%r params=%r' % (gp, gps)))
     return bad
 
-STATUS_TEXT = {200: 'OK', 400: 'Bad Request', 404: 'Not Found', 418: "I'm a teapot", 500: 'Internal Server Error', 503: 'Service Unavailable'}
+import http as _http
+STATUS_TEXT = {int(c): c.phrase for c in _http.HTTPStatus}
+STATUS_TEXT[418] = "I'm a teapot"; STATUS_TEXT[414] = 'Request URI Too Long'      # Go's spellings
 
 def judge_c16(ops, impl):
     bad = []
